@@ -292,6 +292,8 @@ pub enum Op {
     /// 5 acpi_disable 6 flag(idx 0..=24) 7 gpe_info 8 preferred_pm_profile(0..=8)
     /// 9 = direct pub-field write: field index a, value b (C04 layout only)
     Fadt { call: u8, a: u64, b: u64, c: u64 },
+    /// direct assignment to FACS pub field `idx` (C04 layout only)
+    FacsSet { idx: u8, v: u64 },
     Sdt(SdtOp),
 }
 
@@ -346,6 +348,7 @@ impl Op {
             Op::Tpm2LogArea { .. } => "tpm2.set_log_area",
             Op::Tcpa { .. } => "tcpa.builder",
             Op::Fadt { .. } => "fadt.builder",
+            Op::FacsSet { .. } => "facs.field",
             Op::Sdt(_) => "sdt.op",
         }
     }
